@@ -344,6 +344,13 @@ def inherit_descs(tier):
                                packet("Alias", [payload()], parent="Parent"),
                                packet("C1", [scalar("x", 8)], parent="Alias", cons=[cons("v", 1)]),
                                packet("C2", [scalar("y", 16)], parent="Alias", cons=[cons("v", 2)])], name="inh_alias"))
+    # an alias (only a payload of its own) that carries a constraint, between a root and constrained leaves
+    out.append(desc("little", [E8, packet("Message", [typedef("kind", "E8"), scalar("op", 16), payload()]),
+                               packet("Request", [payload()], parent="Message", cons=[cons("kind", "A")]),
+                               packet("ReadRequest", [scalar("handle", 16)], parent="Request", cons=[cons("op", 0x0102)]),
+                               packet("WriteRequest", [scalar("handle", 16), array("data", 8)], parent="Request", cons=[cons("op", 0x0103)]),
+                               packet("Event", [scalar("code", 8)], parent="Message", cons=[cons("kind", "B")])],
+                    name="inh_alias_cons"))
     out.append(desc("little", [packet("Parent", [scalar("v", 8)]),
                                packet("Child", [], parent="Parent", cons=[cons("v", 7)])], name="inh_nopayload"))
     out.append(desc("little", [packet("Parent", [scalar("v", 8), payload()]),
@@ -376,6 +383,11 @@ def inherit_descs(tier):
                                packet("Child3", [scalar("x", 8), payload()], parent="Parent", cons=[cons("a", 2)]),
                                packet("GrandChild", [scalar("y", 16)], parent="Child3", cons=[cons("x", 7)])],
                     name="inh_size_and_payload_sibling"))
+    # parents whose data fields are not plain scalars (arrays, structs): inherited by the child, with and without a payload
+    out.append(desc("little", [SS, packet("Parent", [scalar("v", 8), count("a", 8), array("a", 16), typedef("s", "SS"), payload()]),
+                               packet("Child", [scalar("x", 8)], parent="Parent", cons=[cons("v", 1)])], name="inh_parent_array"))
+    out.append(desc("little", [packet("Parent", [scalar("v", 8), count("a", 8), array("a", 16)]),
+                               packet("Child", [], parent="Parent", cons=[cons("v", 7)])], name="inh_nopayload_array"))
     # constraint tuples: children with two constraints that agree on the first and differ in the second, on the
     # second only, and a child with one constraint that a two-constraint sibling shares
     out.append(desc("little", [E8, packet("Cmd", [scalar("op", 8), typedef("kind", "E8"), payload()]),
